@@ -151,7 +151,7 @@ func (e *c10Env) snap() *c10Snap {
 			}
 			s.Keys[b+"\x00"+k] = obs
 		}
-		ol, err := e.st.Backend.ListBucket(b, nil, gofakes3.ListBucketPage{})
+		ol, err := c10SafeList(e.st, b, nil)
 		if err != nil {
 			s.Lists[b] = "error: " + err.Error()
 		} else {
@@ -162,7 +162,7 @@ func (e *c10Env) snap() *c10Snap {
 			s.Entries[b] = m
 		}
 		slash := "/"
-		if dl, err := e.st.Backend.ListBucket(b, &gofakes3.Prefix{HasDelimiter: true, Delimiter: slash}, gofakes3.ListBucketPage{}); err == nil {
+		if dl, err := c10SafeList(e.st, b, &gofakes3.Prefix{HasDelimiter: true, Delimiter: slash}); err == nil {
 			g := map[string]bool{}
 			for _, cp := range dl.CommonPrefixes {
 				g[cp.Prefix] = true
@@ -202,6 +202,17 @@ func c10Alias(k1, k2 string) bool {
 	return path.Clean("/"+k1) == path.Clean("/"+k2)
 }
 
+// c10SafeList lists through the Go API; a panic of the backend becomes an error (and so a listing
+// that differs from the one before).
+func c10SafeList(st *backends.Stack, b string, p *gofakes3.Prefix) (ol *gofakes3.ObjectList, err error) {
+	defer func() {
+		if r := recover(); r != nil {
+			ol, err = nil, fmt.Errorf("panic: %v", r)
+		}
+	}()
+	return st.Backend.ListBucket(b, p, gofakes3.ListBucketPage{})
+}
+
 func (e *c10Env) exec(op c10Op) *s3x.Resp {
 	st := e.st
 	h := st.Handler
@@ -224,6 +235,34 @@ func (e *c10Env) exec(op c10Op) *s3x.Resp {
 		return s3x.Do(h, &s3x.Req{Method: "HEAD", Path: "/" + op.B + "/" + op.Key})
 	case "del":
 		return s3x.Do(h, &s3x.Req{Method: "DELETE", Path: "/" + op.B + "/" + op.Key})
+	case "delver-all":
+		// every version and delete marker of the key removed by its ID, newest first (the order the
+		// version listing gives, and what tools that empty a versioned bucket do)
+		last := &s3x.Resp{Status: 204}
+		for round := 0; round < 20; round++ {
+			lv := s3x.Do(h, &s3x.Req{Method: "GET", Path: "/" + op.B, Query: s3x.Q("versions", s3x.Bare, "prefix", op.Key)})
+			if lv.Panic != "" || lv.Status != 200 {
+				return lv
+			}
+			doc, err := s3x.ParseVersions(lv.Body)
+			if err != nil {
+				panic("harness: version listing: " + err.Error())
+			}
+			id := ""
+			for _, v := range c13Entries(doc) {
+				if v.Key == op.Key && v.Latest {
+					id = v.ID
+				}
+			}
+			if id == "" {
+				return last
+			}
+			last = s3x.Do(h, &s3x.Req{Method: "DELETE", Path: "/" + op.B + "/" + op.Key, Query: s3x.Q("versionId", id)})
+			if last.Panic != "" || last.Status != 204 {
+				return last
+			}
+		}
+		return last
 	case "mdel":
 		x := "<Delete><Object><Key>" + xmlEsc(op.Key) + "</Key></Object></Delete>"
 		return s3x.Do(h, &s3x.Req{Method: "POST", Path: "/" + op.B, Query: s3x.Q("delete", s3x.Bare), Body: []byte(x)})
@@ -312,7 +351,7 @@ func (e *c10Env) step(op c10Op) (ds []disc, accepted bool) {
 		fail("panic", "%s at %s", resp.Panic, resp.PanicSite)
 	}
 	accepted = resp.Panic == "" && resp.Status >= 200 && resp.Status < 300
-	mutating := map[string]bool{"h-put": true, "h-del": true, "put": true, "del": true, "mdel": true, "copy-to": true, "copy-from": true, "complete": true, "post": true, "api-put": true, "api-del": true, "mkbucket": true, "rmbucket": true, "api-mkbucket": true, "api-rmbucket": true, "api-force-rmbucket": true}[op.K]
+	mutating := map[string]bool{"h-put": true, "h-del": true, "put": true, "del": true, "mdel": true, "delver-all": true, "copy-to": true, "copy-from": true, "complete": true, "post": true, "api-put": true, "api-del": true, "mkbucket": true, "rmbucket": true, "api-mkbucket": true, "api-rmbucket": true, "api-force-rmbucket": true}[op.K]
 	after := e.snap()
 	if e.st.GuardTripped() {
 		fail("runaway-recursion", "after the operation, listing the store recursed without bound (a fatal stack overflow in production)")
@@ -775,6 +814,11 @@ func c10Run(t *testing.T, c *evid.Collector) {
 					cs := c10Case{Backend: k, Versioned: true, Ops: []c10Op{{K: opk, B: b, Key: key, Body: "in a versioned bucket"}}}
 					if opk == "put" {
 						cs.Ops = append(cs.Ops, c10Op{K: "del", B: b, Key: key}, c10Op{K: "del", B: b, Key: key})
+					}
+					if opk == "del" {
+						// ... and the key's whole history removed version by version afterwards
+						cs.Ops = append([]c10Op{{K: "put", B: b, Key: key, Body: "a second version"}}, cs.Ops...)
+						cs.Ops = append(cs.Ops, c10Op{K: "delver-all", B: b, Key: key}, c10Op{K: "put", B: b, Key: key, Body: "stored again"}, c10Op{K: "delver-all", B: b, Key: key})
 					}
 					ds, acc := c10Exec(cs)
 					record("framing", cs, ds, acc, "versioned")
